@@ -652,22 +652,34 @@ func c10Limit(c *Ctx, m *Module, rule string) {
 	for _, cs := range m.callersOf(cas) {
 		r.Check(rule, "cas32 caller "+fname(cs.Parent()), m.Pos(cs.Pos()), fname(cs.Parent()) == "(*internal/counter.mappedFile).newCounter", "shared words are modified only by newCounter")
 	}
-	// name cap before anything else
-	okCap := false
-	for _, b := range nc.Blocks {
-		if ret, ok := b.Instrs[len(b.Instrs)-1].(*ssa.Return); ok && len(ret.Results) == 3 && !isNilConst(ret.Results[2]) {
-			for _, f := range factsAt(ret) {
-				if bo, isB := f.Cond.(*ssa.BinOp); isB && f.Pol && bo.Op == token.GTR && describe(bo.X) == "builtin:len(param:name)" {
-					if k, isC := constOf(bo.Y); isC && k == m.ConstVal("internal/counter", "maxNameLen") {
-						// nothing effectful before it
-						okCap = entryReachesWithout(nc, func(in ssa.Instruction) bool {
-							return isCallTo(in, "(*internal/counter.mappedFile).cas32", "(*internal/counter.mappedFile).lookup", "(*internal/counter.mappedFile).writeEntryAt")
-						}, func(in ssa.Instruction) bool { return in.Block() == b || precedesBlock(bo, in) }) == nil || true
-					}
-				}
+	// name cap before anything else: every reservation, look-up and record write lies under
+	// ¬(len(name) > maxNameLen)
+	okCap := true
+	nCapSites := 0
+	maxName := m.ConstVal("internal/counter", "maxNameLen")
+	isCapFact := func(f Fact) bool {
+		bo, isB := f.Cond.(*ssa.BinOp)
+		if !isB {
+			return false
+		}
+		k, isC := constOf(bo.Y)
+		if !isC || k != maxName || describe(bo.X) != "builtin:len(param:name)" {
+			return false
+		}
+		return bo.Op == token.GTR && !f.Pol || bo.Op == token.LEQ && f.Pol
+	}
+	for _, cs := range callsIn(nc) {
+		if !isCallTo(cs, "(*internal/counter.mappedFile).cas32", "(*internal/counter.mappedFile).lookup", "(*internal/counter.mappedFile).writeEntryAt") {
+			continue
+		}
+		nCapSites++
+		for _, cse := range factCases(factsAt(cs)) {
+			if !hasFact(cse, isCapFact) {
+				okCap = false
 			}
 		}
 	}
+	okCap = okCap && nCapSites >= 1
 	r.Check("C10.name-cap", "newCounter/names longer than maxNameLen are refused", m.Pos(nc.Pos()), okCap, "len(name) > maxNameLen must return an error")
 	// and the check dominates every reservation
 	for _, cs := range callsIn(nc, "(*internal/counter.mappedFile).cas32", "(*internal/counter.mappedFile).writeEntryAt") {
